@@ -63,6 +63,17 @@ def main(tier, seed, replay=None):
             kinds["init_len"] = kinds.get("init_len", 0) + 1
         progs.append((names, ops, info))
         calls_l.append(calls)
+    # arbitrary builder programs (valid and invalid alike, e.g. derivative closures of another arity than their function): whatever
+    # the builder lets through must then answer every call as the model says — with an error value where something is wrong
+    from . import c15
+    for j in range(200 if tier == "quick" else 4000):
+        names, ops = c15.random_program(rng)
+        P = len(names)
+        calls = [("params",), ("eval",)] + [("deriv", k) for k in range(P)]
+        calls += [("set", [rng.randint(11, 99) for _ in range(P)]), ("eval",)] + [("deriv", k) for k in range(P)] + [("params",)]
+        progs.append((names, ops, {"P": P, "free": True}))
+        calls_l.append(calls)
+        kinds["arbitrary_program"] = kinds.get("arbitrary_program", 0) + 1
     cases = []
     for i, ((names, ops, info), calls) in enumerate(zip(progs, calls_l)):
         c = mb.to_harness(names, ops, scalar="f64" if i % 2 else "f32", calls=calls)
@@ -77,7 +88,7 @@ def main(tier, seed, replay=None):
             run.violation("builder-made model panicked / hung on misuse: %s" % r.get("panic"),
                           {"names": names, "ops": ops, "calls": calls, "result": r})
             continue
-        if not r["head"]["ok"] and not info.get("expect_invalid"):
+        if not r["head"]["ok"] and not info.get("expect_invalid") and not info.get("free"):
             run.violation("a valid builder program was rejected", {"names": names, "ops": ops, "result": r})
             continue
         if info.get("expect_invalid") and r["head"]["ok"]:
